@@ -120,7 +120,7 @@ Definition check (c : case) : N :=
                 end
               else true))
   | CDecode pkg up single data o =>
-    code (ceqb ((if single then m_dec1 else m_dec) (pkg_tag pkg) up data) o) true
+    code (ceqb ((if single then m_dec1 else m_dec) (pkg_tag pkg) up data) o) (negb (is_panic o))
   | CKeys key addr o_gen o_app o_ke o_apps o_nets =>
     code (oeqb (mc_root_key_for_gen_app_key key) o_gen
           && oeqb (mc_root_key_for_app_key key) o_app
